@@ -143,6 +143,7 @@ def main(argv=None):
         print("pyvc: no obligations for %s" % a.prop)
         return 3
 
+    os.environ["PYVC_TIER"] = a.tier
     seed = int(os.environ.get("VERIF_SEED", "0"))
     timeout_ms = 20000 if a.tier == "quick" else 60000
     second = a.tier == "thorough"
